@@ -39,7 +39,7 @@ let parse_decision (s : string) : M.decision =
 
 let parse_msg (i : int) (t : string) : M.msg =
   match split_on ':' t with
-  | [from; rc; enc; _kind; _k; _body] ->
+  | from :: rc :: enc :: _kind :: _k :: _body :: ([] | [_]) ->
     { M.m_id = nat_of_int i;
       M.m_from = (if from = "!" then None else Some (bytes_of_hex from));
       M.m_rcpts = (if rc = "-" then [] else List.map bytes_of_hex (split_on ',' rc));
